@@ -609,9 +609,16 @@ func checkMain(args []string) int {
 		},
 		"assumptions": sp.Assume,
 	}
-	os.MkdirAll(filepath.Join(verifRoot, "evidence"), 0755)
+	evDir := filepath.Join(verifRoot, "evidence")
+	if os.Getenv("VF_REPO_SRC") != "" {
+		evDir = os.Getenv("VF_EVIDENCE_DIR")
+		if evDir == "" {
+			evDir = os.TempDir()
+		}
+	}
+	os.MkdirAll(evDir, 0755)
 	b, _ := json.MarshalIndent(ev, "", " ")
-	os.WriteFile(filepath.Join(verifRoot, "evidence", prop+".json"), b, 0644)
+	os.WriteFile(filepath.Join(evDir, prop+".json"), b, 0644)
 	fmt.Printf("%s: %d paths, %d solver-decided branches, %d assertion queries (%d unsat, %d sat), %d constant-true, %d witnesses replayed natively, %.1fs solver, %.1fs wall => exit %d\n",
 		prop, total.Paths, total.Branches, total.Asserts, total.AssertsUnsat, total.AssertsSat, total.AssertsTrivial, tracesOK, total.SolverSeconds, total.WallSeconds, exit)
 	return exit
